@@ -151,6 +151,18 @@ Definition oracle (c : flat * bool * bool * option Z * option Z * bool) : bool :
      | _, _ => Bool.eqb oext (outer || existsb elem_x (fst f))
      end.
 
+(* the two parts of [oracle] that do not ask for exactness: nothing permitted is excluded (probe points), marker exact.
+   Used where the implementation documents a deliberate over-approximation (a contained subtype inside a set operation). *)
+Definition oracle_sound (c : flat * bool * bool * option Z * option Z * bool) : bool :=
+  let '(f, outer, signed, omin, omax, oext) := c in
+  if negb (forallb ranges_ok (fst f)) then true else
+  forallb (fun z => implb (semb_flat f z && (signed || Z.leb 0 z)) (geb_opt omin z && leb_opt z omax)) (probes f)
+  && match omin, omax with
+     | None, None => true
+     | Some 0, None => if signed then Bool.eqb oext (outer || existsb elem_x (fst f)) else true
+     | _, _ => Bool.eqb oext (outer || existsb elem_x (fst f))
+     end.
+
 Definition ops_monotone (f : flat) : bool :=
   match snd f with
   | [o1; o2] => monotone3 o1 o2
